@@ -368,19 +368,19 @@ func c05Crafted(j *rt.Job, rng *rt.Rand, r *rt.Rec) {
 		out := rt.Call(func() { o = dilithium.Open(sealed[:n], &pkA) })
 		r.Eval(1)
 		if out.Kind != rt.Value || o != nil {
-			r.Violate("C05/open-truncated", fmt.Sprintf("Open of a %d-byte prefix of a sealed message returned %v / %s", n, o != nil, out), map[string]interface{}{"kind": "job", "job": j}, "nil", "")
+			r.Violate("C05/open-truncated", fmt.Sprintf("Open of a %d-byte prefix of a sealed message returned %v / %s", n, o != nil, out), jobCase(j), "nil", "")
 			return
 		}
 		r.Count("open_truncated_nil", 1)
 	}
 	if len(msg) > 0 {
 		if o := dilithium.Open(sealed[:len(sealed)-1], &pkA); o != nil {
-			r.Violate("C05/open-truncated", "Open accepts a sealed message with its last byte removed", map[string]interface{}{"kind": "job", "job": j}, "nil", "")
+			r.Violate("C05/open-truncated", "Open accepts a sealed message with its last byte removed", jobCase(j), "nil", "")
 			return
 		}
 	}
 	if o := dilithium.Open(append(append([]byte(nil), sealed...), 0x00), &pkA); o != nil {
-		r.Violate("C05/open-extended", "Open accepts a sealed message with a byte appended", map[string]interface{}{"kind": "job", "job": j}, "nil", "")
+		r.Violate("C05/open-extended", "Open accepts a sealed message with a byte appended", jobCase(j), "nil", "")
 		return
 	}
 	r.Sample(map[string]interface{}{"seed": rt.Hex(ks[:8]) + "..", "msg_len": len(msg), "hint_weight": total, "hint_counts": counts})
